@@ -108,9 +108,13 @@ def c19_case(rec, root):
          "k": {"valid": "0.25", "edge": "1", "range": "1.5", "text": "abc"},
          "km": {"valid": "0.35", "edge": "0", "range": "-0.1", "text": "k"}}
     # non-numeric text: a word, or the spelling of "not a number" that a float parser accepts
-    if rec.get("case", 0) % 2:
+    if rec.get("case", 0) % 3 == 1:
         V = {k: dict(v) for k, v in V.items()}
         V["a"]["text"], V["am"]["text"], V["k"]["text"], V["km"]["text"] = "NaN", "nan", "NaN", "nan"
+    elif rec.get("case", 0) % 3 == 2:
+        # ... or no text at all (an empty value)
+        V = {k: dict(v) for k, v in V.items()}
+        V["a"]["text"], V["am"]["text"], V["k"]["text"], V["km"]["text"] = "", "", "", ""
     meta = []
     legacy = c.get("legacy", False)
     if c["ameta"] != "absent":
@@ -158,9 +162,9 @@ def c19_case(rec, root):
     if c["kopt"] != "absent":
         argv += ["--kexp=" + V["k"][c["kopt"]]]
     if c["r1opt"] != "absent":
-        argv += ["--red1", "0.1", "1.1" if c["r1opt"] == "valid" else ("NaN" if rec.get("case", 0) % 2 else "x"), "0.11"]
+        argv += ["--red1", "0.1", "1.1" if c["r1opt"] == "valid" else ["x", "NaN", ""][rec.get("case", 0) % 3], "0.11"]
     if c["r2opt"] != "absent":
-        argv += ["--red2", "0.15", "1.15" if c["r2opt"] == "valid" else ("x" if rec.get("case", 0) % 2 else "nan"), "0.115"]
+        argv += ["--red2", "0.15", "1.15" if c["r2opt"] == "valid" else ["nan", "", "x"][rec.get("case", 0) % 3], "0.115"]
     if c.get("verbose"):
         argv += ["-" + "v" * int(c["verbose"])]
     res = run_proc(argv, d)
@@ -207,7 +211,8 @@ FAULT_BUILDING = """0, CONSUMO, ILU, ELECTRICIDAD, 4, 6
 def fault_bytes(lines):
     out = b""
     for ln in lines:
-        out += b",".join(t.replace("<NA>", "ñ€").replace("<CM>", '# ñ>€"ñ&<\\').encode("utf-8").replace(b"<FF>", b"\xff") for t in ln) + b"\n"
+        out += b",".join(t.replace("<NA>", "ñ€").replace("<CM>", '# ñ>€"ñ&<\\').replace("<L20>", "ñ" * 150).replace("<L21>", "x" + "ñ" * 150)
+                        .replace("<L30>", "€" * 100).replace("<L31>", "x" + "€" * 100).replace("<L32>", "xx" + "€" * 100).encode("utf-8").replace(b"<FF>", b"\xff") for t in ln) + b"\n"
     return out
 
 
